@@ -40,6 +40,19 @@ def oracle(case, out):
         want = next((i for i in range(st, len(h)) if (h[i] in s) == (op == "fo")), None)
         if idx(o) != want:
             return "find_first_%sof(%s,set %s,%d) = %s, expected %s" % ("" if op == "fo" else "not_", t[2], t[3], st, o, want)
+    elif op in ("sfo", "sfno"):
+        # strings: the first code point boundary >= start whose code point is / is not one of the set's code points
+        h, s, st = b(t[2]), b(t[3]), int(t[4])
+        def cps(x):
+            out, i = [], 0
+            while i < len(x):
+                c = x[i]; n = 1 if c < 0x80 else 2 if c < 0xE0 else 3 if c < 0xF0 else 4
+                out.append((i, x[i:i + n])); i += n
+            return out
+        members = set(c for _, c in cps(s))
+        want = next((i for i, c in cps(h) if i >= st and (c in members) == (op == "sfo")), None)
+        if idx(o) != want:
+            return "string find_first_%sof(%s,set %s,%d) = %s, expected %s" % ("" if op == "sfo" else "not_", t[2], t[3], st, o, want)
     elif op == "eq":
         if (o == "1") != (b(t[2]) == b(t[3])):
             return "equal(%s,%s) = %s" % (t[2], t[3], o)
@@ -96,6 +109,17 @@ def gen(ctx):
         st = r.randrange(0, l + 1)
         add("fo %s %s %d" % (hx(h), hx(s), st))
         add("fno %s %s %d" % (hx(h), hx(s), st))
+    # strings: sets and haystacks of valid UTF-8 with code points of 1, 2, 3 and 4 bytes, start at a code point boundary
+    alphabet = ["a", "b", " ", "\u00e4", "\u00df", "\u20ac", "\u4e00", "\U0001F602", "\U00010400", "\U0010FFFF"]
+    for _ in range(2500 if quick else 60000):
+        hs = [r.choice(alphabet) for _ in range(r.randrange(0, 12))]
+        ss = r.sample(alphabet, r.randrange(1, 5))
+        h = "".join(hs).encode(); s = "".join(ss).encode()
+        bounds = [0]
+        for c in hs: bounds.append(bounds[-1] + len(c.encode()))
+        st = r.choice(bounds)
+        add("sfo %s %s %d" % (hx(h), hx(s), st))
+        add("sfno %s %s %d" % (hx(h), hx(s), st))
     # equality and ASCII case-insensitive equality (bytes around 'A'-1, 'Z'+1, 'a', 'z', high bytes)
     edge = [0, 64, 65, 90, 91, 96, 97, 122, 123, 127, 128, 193, 225, 255]
     for _ in range(3000 if quick else 60000):
